@@ -25,6 +25,8 @@ where
     fn parse(&mut self, input: &mut I) -> Result<Self::Output, Self::Error> {
         match self.parser.parse(input) {
             Ok(value) => Ok(value),
+            // a soft error is returned as-is
+            Err(err) if err.is_soft() => Err(err),
             Err(_) => Err(self.err.clone()),
         }
     }
